@@ -31,7 +31,8 @@ _QUICK = [_walk("quick_all", "MC_Rules_quick.cfg", 60)]
 _THOROUGH = [_walk("single", "MC_Rules_single_big.cfg", 150),
              _walk("pair_trace", "MC_Rules_pair_trace_big.cfg", 200),
              _walk("pair_span", "MC_Rules_pair_span_big.cfg", 200),
-             _walk("list", "MC_Rules_list_big.cfg", 150)]
+             _walk("list", "MC_Rules_list_big.cfg", 150),
+             _walk("mix", "MC_Rules_mix_big.cfg", 150)]
 _PROB = [dict(kind="gotest", name="prob", pkg="sample", test="TestVerifC08Prob", harness=_H, budget={"quick": 30, "thorough": 120})]
 _STAGES = {"quick": _QUICK + _PROB, "thorough": _THOROUGH + _PROB, "replay": _QUICK + _THOROUGH + _PROB}[_mode() if _mode() in ("quick", "thorough", "replay") else "quick"]
 
@@ -39,7 +40,7 @@ PROP = dict(
     level="model_checking",
     technique="TLA+ spec Rules.tla (the documented rule semantics transcribed from rules_conditions.md / rules.md as operators over an abstract typed value domain) enumerated exhaustively by TLC; every (rule list, trace) vector is replayed into the real RulesBasedSampler obtained from the real config loader and SamplerFactory (function-vector replay, B3); statistical clause by a 6.5-sigma binomial band",
     design_ref="DESIGN.md §5 C08",
-    level_text="TLC enumerates every single condition (15 operators x 5 datatypes x typed condition values x typed span values incl. absent), every two-condition rule over two-span traces (Field/Fields, root. prefix, ?.NUM_DESCENDANTS, has-root-span, scope trace/span, with and without root span) and every rule list of length <= 2 (drop / SampleRate / downstream sampler / default) within the bound, computes the documented outcome and checks FirstMatch / Decision / AbsentNeverMatches on the model; each vector is then built as a real rules file loaded by config.NewConfig, a real types.Trace with msgpack payloads, and the matched rule, keep/drop and rate returned by GetSampleRate must equal the model's outcome (also with the spans of the trace in the opposite arrival order). The known deviation (string-coerced matchers match an absent field read as \"<nil>\") is a named second successor per (operator, datatype); any other mismatch is a violation.",
+    level_text="TLC enumerates every single condition (15 operators x 5 datatypes x typed condition values x typed span values incl. absent), every two-condition rule over two-span traces (Field/Fields, root. prefix, ?.NUM_DESCENDANTS, has-root-span, scope trace/span, with and without root span), every Fields list mixing a plain and a root.-prefixed name (both orders) over three-span traces with the field absent / matching / non-matching on each span independently (both scopes, root arriving first, in the middle or last) and every rule list of length <= 2 (drop / SampleRate / downstream sampler / default) within the bound, computes the documented outcome and checks FirstMatch / Decision / AbsentNeverMatches on the model; each vector is then built as a real rules file loaded by config.NewConfig, a real types.Trace with msgpack payloads, and the matched rule, keep/drop and rate returned by GetSampleRate must equal the model's outcome (also with the spans of the trace in the opposite arrival order). The known deviation (string-coerced matchers match an absent field read as \"<nil>\") is a named second successor per (operator, datatype); any other mismatch is a violation.",
     level_note="Bounded-exhaustive over the abstract value domain (7-12 strings, 5 ints, 2 floats, booleans), not over all strings/numbers; combinations the documents leave open (untyped comparison across kinds, ordering of booleans, string form of integral floats, not-exists on root.-prefixed fields without root span, conversion of float-looking strings to int) are not enumerated; regular expressions are three fixed patterns; CheckNestedFields is off; the one-step graph is replayed by a linear driver in the harness with verifkit.Walk's acceptance rule (verifkit.Walk is quadratic on one-step graphs); 'probability 1/N' is a statistical band (gotest stage), keep/drop is compared exactly only for drop rules, rate 1 and the rate-1 downstream sampler.",
     assumptions=["dynsampler-go with SampleRate 1 keeps every trace at rate 1", "Go's math/rand draws are independent and uniform",
                  "bounded abstract value domain"],
